@@ -109,12 +109,101 @@ V("C06", "escaped backquote kept escaped", T,
 V("C06", "double quote not escaped", T,
   "            elif char == '\"':\n                temp += '\\\\\"'\n",
   "            elif char == '\"':\n                temp += '\"'\n", "C0")
+B("C08", ">= spelled as not-less-than (composition of vectorising "
+  "functions)", E,
+  """    ts = vy_type(lhs, rhs)
+    return {
+        (NUMBER_TYPE, NUMBER_TYPE): lambda: int(bool(lhs >= rhs)),
+        (NUMBER_TYPE, str): lambda: int(str(lhs) >= rhs),
+        (str, NUMBER_TYPE): lambda: int(lhs >= str(rhs)),
+        (str, str): lambda: int(lhs >= rhs),
+    }.get(ts, lambda: vectorise(greater_than_or_equal, lhs, rhs, ctx=ctx))()
+""",
+  """    return vectorised_not(less_than(lhs, rhs, ctx), ctx)
+""")
+B("C08", "vy_zip pads through a sentinel", E,
+  """            while True:
+                exhausted = 0
+                try:
+                    left_item = next(left)
+                except StopIteration:
+                    left_item = 0
+                    exhausted += 1
+
+                try:
+                    right_item = next(right)
+                except StopIteration:
+                    right_item = 0
+                    exhausted += 1
+                if exhausted == 2:
+                    break
+                else:
+                    yield [left_item, right_item]
+""",
+  """            end = object()
+            while True:
+                left_item = next(left, end)
+                right_item = next(right, end)
+                if left_item is end and right_item is end:
+                    break
+                yield [
+                    0 if left_item is end else left_item,
+                    0 if right_item is end else right_item,
+                ]
+""")
+V("C08", "vy_zip pads by truth value (falsy items become 0)", E,
+  """            while True:
+                exhausted = 0
+                try:
+                    left_item = next(left)
+                except StopIteration:
+                    left_item = 0
+                    exhausted += 1
+
+                try:
+                    right_item = next(right)
+                except StopIteration:
+                    right_item = 0
+                    exhausted += 1
+                if exhausted == 2:
+                    break
+                else:
+                    yield [left_item, right_item]
+""",
+  """            while True:
+                left_item = next(left, None)
+                right_item = next(right, None)
+                if left_item is None and right_item is None:
+                    break
+                yield [left_item or 0, right_item or 0]
+""", "C08.zip-zero-fill")
+V("C08", "primitive_type tests exact types only (sympy Half, Zero, ... "
+  "are subclasses)", H,
+  "if type(item) in [int, sympy.Rational, str] or is_sympy(item):",
+  "if type(item) in [int, sympy.Rational, sympy.Integer, str]:",
+  "C08.scalar-recognised")
+V("C08", "vy_type forgets sympy numbers", E,
+  "in (int, complex, float) or is_sympy(item):",
+  "in (int, complex, float, sympy.Rational, sympy.Integer):",
+  "C08.number-recognised")
 # ---- C07 ----------------------------------------------------------------------------
 V("C07", "float division", E, "else vyxalify(sympy.sympify(lhs) / rhs),",
   "else vyxalify(sympy.nsimplify(lhs / rhs)),", "C07.float-free-arm")
 V("C07", "floor division unguarded", E,
-  "(NUMBER_TYPE, NUMBER_TYPE): lambda: 0 if rhs == 0 else lhs // rhs,",
-  "(NUMBER_TYPE, NUMBER_TYPE): lambda: lhs // rhs,", "C07.zero-guard")
+  "(NUMBER_TYPE, NUMBER_TYPE): lambda: 0\n        if rhs == 0\n        else vyxalify(sympy.floor(sympy.sympify(lhs) / rhs)),",
+  "(NUMBER_TYPE, NUMBER_TYPE): lambda: vyxalify(sympy.floor(sympy.sympify(lhs) / rhs)),",
+  "C07.zero-guard")
+V("C07", "floor division through sympy's // (off by one on negative "
+  "integral quotients)", E,
+  "else vyxalify(sympy.floor(sympy.sympify(lhs) / rhs)),",
+  "else lhs // rhs,", "C07.float-free-arm")
+V("C07", "modulo through builtin divmod", E,
+  "(NUMBER_TYPE, NUMBER_TYPE): lambda: lhs % rhs,",
+  "(NUMBER_TYPE, NUMBER_TYPE): lambda: divmod(lhs, rhs)[1],",
+  "C07.float-free-arm")
+B("C07", "integer_divide delegates to vy_divmod's floor", E,
+  "else vyxalify(sympy.floor(sympy.sympify(lhs) / rhs)),",
+  "else vy_divmod(lhs, rhs, ctx)[0],")
 V("C07", "vyxalify guesses closed forms", H,
   "    elif is_sympy(value):\n        return sympy.nsimplify(value, rational=True)",
   "    elif is_sympy(value):\n        return sympy.nsimplify(value)",
